@@ -99,6 +99,32 @@ func TestProp_Metadata(t *testing.T) {
 				vkit.Violate(t, prop, "C16/client-configs-failed", fmt.Sprintf("ClientConfigs failed: %v", cerr), nil)
 				return
 			}
+			// a node may add protocols of its own to the configuration it got from
+			// ClientConfigs, or order them differently: the certificate-preference entry is
+			// then not the last one
+			if k := rapid.IntRange(0, 3).Draw(t, "appendedAfterPreference"); k > 0 {
+				for i := 0; i < k; i++ {
+					cfgs[0].NextProtos = append(cfgs[0].NextProtos, rapid.SampledFrom(extraAlphabet).Draw(t, "appended"))
+				}
+			}
+			if rapid.IntRange(0, 3).Draw(t, "movePreference") == 0 {
+				np := cfgs[0].NextProtos
+				for i, p := range np {
+					if strings.HasPrefix(p, nodeenrollment.CertificatePreferenceV1Prefix) {
+						// keep the request chunks in front (the server needs them contiguous in order), move the entry up
+						first := 0
+						for first < len(np) && strings.HasPrefix(np[first], nodeenrollment.AuthenticateNodeNextProtoV1Prefix) {
+							first++
+						}
+						to := rapid.IntRange(first, len(np)-1).Draw(t, "preferenceAt")
+						moved := append([]string(nil), np[:i]...)
+						moved = append(moved, np[i+1:]...)
+						moved = append(moved[:to], append([]string{p}, moved[to:]...)...)
+						cfgs[0].NextProtos = moved
+						break
+					}
+				}
+			}
 			wire = append([]string(nil), cfgs[0].NextProtos...)
 			raw, derr := net.Dial("tcp", rig.Addr)
 			if derr != nil {
